@@ -310,6 +310,15 @@ def _entry_atom_to_placeholder(atom):
     """callee entry-state atoms -> placeholders usable at call sites"""
     if atom[0] == "param":
         return ("P", atom[1])
+    if atom[0] == "proj":
+        # a field of a by-value parameter (newtype wrappers such as Time(u64))
+        path = []
+        x = atom
+        while x[0] == "proj":
+            path.append(x[2])
+            x = x[1]
+        if x[0] == "param":
+            return ("PP", x[1], tuple(reversed(path)))
     if atom[0] == "len" and atom[1][0] == "param":
         return ("PL", atom[1][1])
     if atom[0] == "init" and atom[1][0] == "deref" and atom[1][1][0] == "param":
@@ -982,6 +991,9 @@ def _atom_class(self, fn, a, seen=None):
         return "const"
     seen = seen | {a}
     t = a[0]
+    fi = getattr(self, "free_inputs", None)
+    if fi is not None and fi(a):
+        return "cursor"         # declared unconstrained input of the property under check
     if t == "const":
         return "const"
     if t == "param":
@@ -1032,6 +1044,8 @@ def _atom_class(self, fn, a, seen=None):
         x = a
         while x[0] == "proj":
             x = x[1]
+        if x[0] == "param":
+            return "param"
         if x[0] == "try":
             x = x[1]
         if x[0] == "call" and self.is_local(x[1]):
